@@ -197,6 +197,11 @@ def gShapes (g : CalField) : List (List CalField) := [[g], [g, .weekV]]
 def coherentShapes : List (List CalField) :=
   yShapes .yearY ++ yShapes .yearY2 ++ gShapes .yearG ++ gShapes .yearG2
 
+/-- the coherent shapes whose year part is the four-digit one; `V2CalendarInfo` only has the
+    full years `year_y`/`year_g` (`YY`/`0Y`/`GG`/`0G` are parsed back to a full year), so these are
+    the shapes `_is_cal_gt` sees -/
+def fullYearShapes : List (List CalField) := yShapes .yearY ++ gShapes .yearG
+
 /-- the documented coherent calendar shapes -/
 def coherent (fs : List CalField) : Bool := coherentShapes.contains fs
 
